@@ -161,6 +161,7 @@ Proof.
   - apply nth_error_Some. destruct (index_of_spec _ _ _ Jx) as [X _]. congruence.
   - apply nth_error_Some. destruct (index_of_spec _ _ _ Jy) as [X _]. congruence.
   - cbn [q_n1 q_n2 q_n12 q_n21 q_n22 q_cross] in D. fold ym in D.
+    rewrite (flag_down h n1 n2 ym ec e2 edc ed2 G Hs12 Hsy Ec E2 Lc M3), orb_false_r in D.
     destruct (exchange_Rep h h' lt n1 n2 n12 ym ic ix iy jx jy e1 e2 ec hn1 hn2 hxm hym ed1 ed2 edc R H1 H2 Hxm Hym Kc Ec Lc Kx Nxmy E1 Ky Nymx E2 Jx Jy D)
       as [lt' [R' Hsq]].
     exists h', lt'. split; [exact Ev|]. split; [exact R'|].
